@@ -357,6 +357,7 @@ def correspond(ctx):
     reused_buffers(ctx)
     probe_layer(ctx)
     two_models(ctx)
+    user_pools(ctx)
     if not ctx.quick:
         real_pools(ctx)
 
@@ -496,6 +497,79 @@ def real_pools(ctx):
                         if not np.array_equal(np.asarray(out, dtype=float), x * 3.0 - 7.0 + EPS):
                             ctx.oracle_fail("batch_evaluate_function", "fork pool result differs from pointwise", case)
                         ctx.case(("fork", n, vec, chunk, p), n >= 1, kind="forkpool")
+
+
+def user_pools(ctx):
+    """USER-SUPPLIED pools handed to `Model.configure_pool(pool=…)` WITHOUT `n_pool`: the number of workers is whatever nessai can
+    read off the object (`_processes`, a ray `_actor_pool`, nothing at all, or — schwimmbad-style — an integer `size`, which is 0
+    for a serial pool).  Whatever it concludes, the batch interface must return the pointwise values, in order, and count each point
+    once (seeded change C10-jA: `get_n_pool` started to read `size`; a serial pool's 0 got past the `n_pool is None` guard and the
+    vectorised batch was split into `None` pieces -> TypeError)."""
+    from nessai.livepoint import numpy_array_to_live_points
+    from nessai.model import Model
+    from nessai.utils.multiprocessing import initialise_pool_variables
+
+    class Base:
+        def __init__(self):
+            self.map_calls = 0
+
+        def map(self, func, iterable):
+            self.map_calls += 1
+            return [func(v) for v in iterable]
+
+        def close(self): pass
+        def join(self): pass
+        def terminate(self): pass
+
+    def mk_pool(kind):
+        pool = Base()
+        if kind.startswith("processes"):
+            pool._processes = int(kind.split("=")[1])
+        elif kind.startswith("actors"):
+            pool._actor_pool = [object()] * int(kind.split("=")[1])
+        elif kind.startswith("size"):
+            pool.size = int(kind.split("=")[1])
+        return pool
+
+    class M(Model):
+        def __init__(self):
+            self.names = ["id", "y"]
+            self.bounds = {"id": [0.0, 1024.0], "y": [-2.0, 2.0]}
+
+        def log_prior(self, x):
+            return np.atleast_1d(x["id"]).astype(float) * 2.0 - 1.0 + EPS
+
+        def log_likelihood(self, x):
+            return np.atleast_1d(x["id"]).astype(float) * 3.0 - 7.0 + EPS
+
+    for kind in ("processes=3", "actors=2", "unknown", "size=0", "size=1", "size=3"):
+        for vec in (True, False):
+            for chunk in (None, 2):
+                m = M()
+                m.vectorised_likelihood = vec
+                m.vectorised_prior = True
+                case = dict(layer="user-pool", pool=kind, vectorised=vec, chunksize=chunk)
+                n = 7
+                x = numpy_array_to_live_points(np.stack([np.arange(n, dtype=float), np.zeros(n)], axis=1), m.names)
+                want = np.arange(n, dtype=float) * 3.0 - 7.0 + EPS
+                try:
+                    initialise_pool_variables(m)
+                    m.configure_pool(pool=mk_pool(kind))
+                    if chunk is not None:
+                        m.likelihood_chunksize = chunk
+                    before = int(m.likelihood_evaluations)
+                    out = np.asarray(m.batch_evaluate_log_likelihood(x), dtype=float)
+                    counted = int(m.likelihood_evaluations) - before
+                except Exception as e:  # noqa
+                    ctx.oracle_fail("Model.batch_evaluate_log_likelihood.user-pool",
+                                    f"user-supplied pool ({kind}), vectorised={vec}, chunksize={chunk}: configure_pool / the batch interface raised "
+                                    f"{_exc(e)}: {e}", case)
+                    continue
+                if out.shape != want.shape or not np.array_equal(out, want) or counted != n:
+                    ctx.oracle_fail("Model.batch_evaluate_log_likelihood.user-pool",
+                                    f"user-supplied pool ({kind}), vectorised={vec}, chunksize={chunk}: returned {out.tolist()} (pointwise "
+                                    f"{want.tolist()}), counter advanced by {counted} for {n} points", case)
+                ctx.case(("user-pool", kind, vec, chunk), True, case, kind="user-pool:" + kind.split("=")[0])
 
 
 def two_models(ctx):
